@@ -863,3 +863,147 @@ func prodInts(s []int) int {
 	}
 	return p
 }
+
+func init() {
+	props["C10"] = &propDef{
+		ID: "C10",
+		Anchored: []string{").Concat", ").Stack", ").Hstack", ").Vstack", ").Repeat", "tensor.Concat", "tensor.Stack", "tensor.Repeat", "denseConcat", "StackDense", "denseSimpleStack", "denseViewStack", "doViewStack", "denseRepeat", "fastCopyDenseRepeat", "copyDenseSliced",
+			"Shape).Concat", "Shape).Repeat", "assignArray", "sliceDense"},
+		Bounds: map[string]interface{}{"operands": "1-3 (quick) / 1-4 (thorough) operands, every operand layout in {C,T,S,SS,M,F} independently (rotating pairs in quick)", "shapes": "rank 1-3 operand shapes with dims<=3 (rank 4 in thorough), every valid axis",
+			"repeat_counts": "every count symbolic in 0..2 (quick) / 0..3 (thorough), enumerated by the solver because counts size the result; uniform (broadcast) and per-element counts; AllAxes", "elements": "symbolic; element sizes 1,2,4,8,16 and string",
+			"empty_results": "a result with zero entries along the axis (all counts zero) is not compared"},
+		Instances: func(tier string, seed int64) []Instance {
+			var out []Instance
+			lays := []string{"C", "T", "S", "SS", "M", "F"}
+			dts := []string{"float64", "int8", "int16", "float32", "complex128", "string", "bool", "int"}
+			n := 0
+			type cc struct {
+				shapes [][]int
+				axis   int
+			}
+			concats := []cc{
+				{[][]int{{2}, {3}}, 0}, {[][]int{{2, 3}, {1, 3}}, 0}, {[][]int{{2, 3}, {2, 2}}, 1}, {[][]int{{2, 3}, {2, 3}, {2, 3}}, 0}, {[][]int{{2, 1}, {2, 2}}, 1},
+				{[][]int{{2, 2, 2}, {2, 1, 2}}, 1}, {[][]int{{2, 2, 2}, {2, 2, 3}}, 2}, {[][]int{{1, 2, 2}, {2, 2, 2}}, 0}, {[][]int{{1, 3}, {1, 3}}, 0}, {[][]int{{3, 1}, {3, 1}}, 1},
+			}
+			if tier == "thorough" {
+				concats = append(concats, cc{[][]int{{2, 3}, {2, 3}, {1, 3}, {2, 3}}, 0}, cc{[][]int{{2, 2, 1, 2}, {2, 2, 2, 2}}, 2}, cc{[][]int{{3}, {1}, {2}}, 0})
+			}
+			for ci, c := range concats {
+				for li := 0; li < len(lays); li++ {
+					for lj := 0; lj < len(lays); lj++ {
+						n++
+						if tier == "quick" && (li+2*lj+ci)%4 != 0 {
+							continue
+						}
+						ls := []string{lays[li], lays[lj], lays[(li+lj)%len(lays)], lays[(li+1)%len(lays)]}[:len(c.shapes)]
+						okL := true
+						for k, l := range ls {
+							if !layoutOK(c.shapes[k], l) {
+								okL = false
+							}
+						}
+						if !okL {
+							continue
+						}
+						cfg := map[string]interface{}{"dtype": dts[n%len(dts)], "n": len(c.shapes), "axis": c.axis, "variant": []string{"concat", "func"}[n%2], "layouts": strings.Join(ls, ",")}
+						for k, s := range c.shapes {
+							cfg[fmt.Sprintf("shape%d", k)] = s
+						}
+						in := mkInst("vhC10Concat", cfg, "dtype", "n", "axis", "variant", "layouts", "shape0", "shape1")
+						out = append(out, in)
+					}
+				}
+			}
+			// hstack / vstack
+			for _, v := range []string{"hstack", "vstack"} {
+				for li, la := range lays {
+					shs := [][]int{{2, 3}, {2, 3}}
+					ax := 1
+					if v == "vstack" {
+						ax = 0
+					}
+					cfg := map[string]interface{}{"dtype": dts[li%len(dts)], "n": 2, "axis": ax, "variant": v, "layouts": la + "," + lays[(li+2)%len(lays)], "shape0": shs[0], "shape1": shs[1]}
+					out = append(out, mkInst("vhC10Concat", cfg, "dtype", "variant", "layouts"))
+					if v == "hstack" {
+						cfg2 := map[string]interface{}{"dtype": dts[li%len(dts)], "n": 2, "axis": 0, "variant": v, "layouts": "C,C", "shape0": []int{2}, "shape1": []int{3}}
+						out = append(out, mkInst("vhC10Concat", cfg2, "dtype", "variant", "layouts", "shape0"))
+					}
+				}
+			}
+			// stack
+			stShapes := [][]int{{3}, {2, 3}, {2, 2}, {1, 3}, {3, 1}, {2, 1, 2}}
+			if tier == "thorough" {
+				stShapes = append(stShapes, []int{2, 2, 2}, []int{2, 3, 2})
+			}
+			for si, sh := range stShapes {
+				for axis := 0; axis <= len(sh); axis++ {
+					for li := 0; li < len(lays); li++ {
+						for lj := 0; lj < len(lays); lj++ {
+							n++
+							if tier == "quick" && (li+3*lj+si+axis)%5 != 0 {
+								continue
+							}
+							for _, nops := range []int{2, 3} {
+								if nops == 3 && (n%3 != 0) {
+									continue
+								}
+								ls := []string{lays[li], lays[lj], lays[(li+lj+1)%len(lays)]}[:nops]
+								okL := true
+								for _, l := range ls {
+									if !layoutOK(sh, l) {
+										okL = false
+									}
+								}
+								if !okL {
+									continue
+								}
+								cfg := map[string]interface{}{"dtype": dts[n%len(dts)], "n": nops, "axis": axis, "variant": []string{"method", "func"}[n%2], "layouts": strings.Join(ls, ",")}
+								for k := 0; k < nops; k++ {
+									cfg[fmt.Sprintf("shape%d", k)] = sh
+								}
+								out = append(out, mkInst("vhC10Stack", cfg, "dtype", "n", "axis", "variant", "layouts", "shape0"))
+							}
+						}
+					}
+				}
+			}
+			// repeat
+			rpShapes := [][]int{{3}, {2, 3}, {3, 2}, {1, 3}, {3, 1}, {2, 2, 2}}
+			if tier == "thorough" {
+				rpShapes = append(rpShapes, []int{2, 3, 2}, []int{2, 1, 2}, []int{2, 2, 1, 2})
+			}
+			maxc := 2
+			if tier == "thorough" {
+				maxc = 3
+			}
+			for _, sh := range rpShapes {
+				for axis := -1; axis < len(sh); axis++ {
+					for li, la := range lays {
+						if !layoutOK(sh, la) {
+							continue
+						}
+						dim := prodInts(sh)
+						if axis >= 0 {
+							dim = sh[axis]
+						}
+						for _, nrep := range []int{1, dim} {
+							n++
+							if nrep > 3 && tier == "quick" {
+								continue
+							}
+							if tier == "quick" && la != "C" && (n+li)%3 != 0 {
+								continue
+							}
+							cfg := map[string]interface{}{"dtype": dts[n%len(dts)], "axis": axis, "nrep": nrep, "maxcount": maxc, "variant": []string{"method", "func"}[n%2], "layouts": la, "shape0": sh}
+							out = append(out, mkInst("vhC10Repeat", cfg, "dtype", "axis", "nrep", "variant", "layouts", "shape0"))
+						}
+					}
+				}
+			}
+			for _, k := range []string{"concat-mismatch", "concat-rank", "concat-axis", "stack-mismatch", "stack-axis", "repeat-counts", "repeat-axis", "vstack-rank1"} {
+				out = append(out, mkInst("vhC10Refuse", map[string]interface{}{"kind": k}, "kind"))
+			}
+			return out
+		},
+	}
+}
